@@ -309,6 +309,9 @@ func cmdCheck(args []string) int {
 			ctxs = append(ctxs, c)
 		}
 	}
+	for _, msg := range immutableCoverage(P, CS, *prop) {
+		violation("lock.coverage:"+truncate(msg, 80), map[string]interface{}{"obligation": "lock.coverage", "error": msg}, false)
+	}
 	for _, msg := range guardCoverage(P, CS, *prop) {
 		violation("lock.coverage:"+truncate(msg, 80), map[string]interface{}{"obligation": "lock.coverage", "error": msg}, false)
 	}
